@@ -253,7 +253,8 @@ def fault_plans(profile, ts=None, cfg=None):
 def ends(profile):
     hows = profile.get('ends', ['shutdown'])
     msg = st.sampled_from(['', 'm', 'stop now'])
-    at = st.one_of(st.none(), st.integers(0, 300))
+    at = st.one_of(st.none(), st.integers(0, 60), st.integers(0, 150),
+                   st.integers(0, 300))
 
     def mk(how, msg, at, wait):
         d = {'how': how}
@@ -292,9 +293,18 @@ def e2e_cases(draw, profile):
         case['agg'] = draw(st.sampled_from([None, 1, 4, 16]))
     if profile.get('cancels'):
         n = len(ts)
+        steps = st.one_of(st.integers(0, 60), st.integers(0, 150),
+                          st.integers(0, 300))
         case['cancels'] = draw(st.lists(
-            st.fixed_dictionaries({'t': st.integers(0, n - 1),
-                                   'at': st.integers(0, 250)}),
+            st.one_of(
+                st.fixed_dictionaries({'t': st.integers(0, n - 1),
+                                       'at': steps}),
+                # event-based trigger: after the k-th begin/end event of the
+                # transfer's own S3 calls (lands mid-transfer by construction)
+                st.fixed_dictionaries({'t': st.integers(0, n - 1),
+                                       'at': st.just(0),
+                                       'calls': st.integers(1, 9)})),
+            min_size=profile.get('min_cancels', 0),
             max_size=profile['cancels']))
     if profile.get('kbi'):
         case['kbi'] = draw(st.one_of(
